@@ -112,6 +112,17 @@ def path_strings(maxlen: int, canary: Path, real: dict) -> list[str]:
             for tail in ("", "/x.fb", "/shards_list.json", "/train",
                          "/train/shards_list.json"):
                 out.append(f"{up}/{sib}{tail}")
+    # compatibility characters that Unicode normalisation (NFKC/NFKD) turns
+    # into '..' and '/': two-dot leader, one-dot leaders, fullwidth stops,
+    # fullwidth solidus, division slash
+    for dd in ("\u2025", "\u2024\u2024", "\uff0e\uff0e"):
+        for tail in ("outside/x.fb", "outside/shards_list.json",
+                     "outside/sub/shards_list.json"):
+            out.append(f"{dd}/{tail}")
+            out.append(f"train/{dd}/{dd}/{tail}")
+            out.append(f"..\uff0f{tail}")
+            out.append(f"{dd}\uff0f{tail.replace('/', chr(0xff0f))}")
+            out.append(f"..\u2215{tail}")
     # paths through the real names that normalise inside the root
     for r in real.values():
         p = Path(r)
